@@ -121,7 +121,7 @@ class TablePolicy(object):
 
 def drive(world, url='ws://example.com/', ws_kwargs=None, connect_kwargs=None,
           policy=None, ws=None, stop_after=None, max_events=100000, headers=None,
-          session_class=None, pre_iter=None, companion=None):
+          session_class=None, pre_iter=None, companion=None, via_iter=False):
     """Iterate one connection to its end.  Never raises (apart from harness bugs)."""
     run = Run()
     run.world = world
@@ -132,7 +132,11 @@ def drive(world, url='ws://example.com/', ws_kwargs=None, connect_kwargs=None,
             for h, v in (headers or ()):
                 ws.add_header(h, v)
         run.ws = ws
-        gen = ws.connect(session_class=session_class or simnet.SimSession, **ckw)
+        if via_iter:
+            # `for event in ws:` - the documented short form of connect() with its default arguments
+            gen = iter(ws)
+        else:
+            gen = ws.connect(session_class=session_class or simnet.SimSession, **ckw)
         run.gen = gen
         if env.CASE_ENV.get('companion') is not None and companion is not False:
             # one companion per case (not per connection): it simply lives on while the case makes its connections
